@@ -177,17 +177,73 @@ Theorem C19_second_cycle_cell_partial : forall code w c, canon7 code = true ->
 Proof. exact cell_second. Qed.
 Print Assumptions C19_second_cycle_cell_partial.
 
-(* UNPROVED (DESIGN 8.1 rung 3), tried again after the repairs and not closed in the time box: the
-   composition over whole files,
-     forall f, dom f = true -> rt_ok f = true /\ second_ok f = true /\ detect_ok f = true,
-   i.e. run_header executed symbolically over the writer's output for arbitrary numbers of variables
-   and attributes (open sub-goals: no_nl (zstr z) through the stdlib decimal printer, and threading the
-   reader state through 14 + ndep + nattr calls of step).  Proved instead, each for all sizes: the line
-   classification (C19_line_classes, C19_line_classes_head), the exact header count for any attribute
-   values (C19_header_count_exact), every line parser (C19_desc_line, C19_names_line, C19_user_line,
-   C19_codes_line / C19_codes_count which fixes len(missing) = ndep), every cell (C19_cell_roundtrip_partial,
-   C19_second_cycle_cell_partial), auto-detection (C19_autodetect).  The composition is evaluated by
-   vm_compute on the files below and compared with the library on every generated case. *)
+(* ---- whole files: the header loop ------------------------------------------------------------ *)
+
+(* '%d' never contains a line break (the two counter lines are single lines for every count) *)
+Theorem C19_count_lines_one_line : forall z, no_nl (zstr z) = true.
+Proof. exact no_nl_zstr. Qed.
+Print Assumptions C19_count_lines_one_line.
+
+(* The reader's state machine on ANY header of the ICARTT layout, for any number of description and
+   comment lines: with the declared count comments + descriptions + 15, as many description lines as
+   missing codes, special-comment count 0 and no comment line starting with a blank, the loop consumes
+   exactly the header and ends with the names of the names line, the codes of the missing line and the
+   units of line 9 and of the description lines. *)
+Theorem C19_header_state_machine : forall n l2 l3 l4 l5 l6 l7 l8 l9 l10 l11 l12 dl us l13 l14 al lnames scs mss v0 vs rest,
+  n = Z.of_nat (length al) + Z.of_nat (length dl) + 15 ->
+  eval_list l11 = Some scs -> eval_list l12 = Some mss -> length mss = length dl ->
+  Forall2 (fun line u => snd (parse_desc line) = u) dl us ->
+  parse_int l13 = Some 0 -> forallb not_continuation al = true ->
+  parse_names lnames = v0 :: vs ->
+  exists A last,
+  run_header n 2 (11 + (length dl + (2 + (length al + 1))))
+    (map PT ([l2; l3; l4; l5; l6; l7; l8; l9; l10; l11; l12] ++ dl ++ [l13; l14] ++ al ++ [lnames]) ++ rest) (s0_of n)
+  = Some (St (map snd scs) mss (line9_unit l9 :: us) 0 last A (Some (v0 :: vs)), rest).
+Proof. exact header_run. Qed.
+Print Assumptions C19_header_state_machine.
+
+(* WHOLE FILES (read_write_meta): for every file that satisfies the boolean hypotheses header_ok (>= 1
+   dependent variable, codes that parse, names / units without comma and padding, no attribute line
+   starting with a blank) and whose non-attribute fields have no line break, reading what the writer
+   wrote runs the header loop to exactly the first data row and hands the data stage (read_data) the
+   variable names in order, every missing-code token and value, the units of every dependent variable
+   and of line 9, one scale per dependent variable - any number of variables, attributes, records. *)
+Theorem C19_read_write_meta_partial : forall f n ls ind sd,
+  impl_write f = Some (n, ls) ->
+  indep_name f = Some ind -> get_attr (s2z "SDATE") (f_attrs f) = Some sd ->
+  forallb no_nl (hdr_other f ind sd) = true ->
+  header_ok f ind = true ->
+  exists s rows,
+    impl_roundtrip f = read_data n s (map PR rows)
+    /\ s_vars s = Some (ind :: map v_name (depvars ind f))
+    /\ map fst (s_miss s) = map code_str (depvars ind f)
+    /\ map snd (s_miss s) = map code_of (map code_str (depvars ind f))
+    /\ s_units s = line9_unit (indep_line f ind) :: map units_str (depvars ind f)
+    /\ length (s_scales s) = length (depvars ind f)
+    /\ s_nsc s = 0.
+Proof. exact roundtrip_through_header. Qed.
+Print Assumptions C19_read_write_meta_partial.
+
+(* line 9 "name, units" gives the independent variable's units back *)
+Theorem C19_line9_units : forall ind u,
+  stripped (join sep [ind; u]) = true -> has_char cCOMMA ind = false ->
+  has_char cCOMMA u = false -> stripped u = true ->
+  line9_unit (join sep [ind; u]) = u.
+Proof. exact line9_print. Qed.
+Print Assumptions C19_line9_units.
+
+(* STILL UNPROVED (DESIGN 8.1 rung 3): the DATA stage for whole files, i.e.
+     forall f, dom f = true -> rt_ok f = true /\ second_ok f = true /\ detect_ok f = true
+   needs, on top of C19_read_write_meta_partial, read_data on the writer's rows (transpose / reshape /
+   column extraction, dictionary de-duplication, the time-range test after rounding) and the closure of
+   dom under to_file for the second cycle.  Those clauses are proved per cell (C19_cell_roundtrip_partial,
+   C19_second_cycle_cell_partial, C19_values_seven_digits), evaluated by vm_compute on the files below and
+   compared with the library on every generated case. *)
+Example C19_header_hypotheses_inhabited :
+  header_ok w_good (s2z "t") = true /\ forallb no_nl (hdr_other w_good (s2z "t") (s2z "2020, 01, 02")) = true
+  /\ line9_unit (indep_line w_good (s2z "t")) = s2z "t".
+Proof. vm_compute. repeat split; reflexivity. Qed.
+
 Example C19_domain_inhabited :
   dom w_good = true /\ rt_ok w_good = true /\ second_ok w_good = true /\ detect_ok w_good = true
   /\ impl_roundtrip w_good <> None.
